@@ -100,10 +100,19 @@ class GraphMachine(MarkupMachine):
     # model_graphs cannot be pickled. Omit them.
     def __getstate__(self):
         # self.pkl_graphs = [(g.markup, g.custom_styles) for g in self.model_graphs]
-        return {k: v for k, v in self.__dict__.items() if k not in self._pickle_blacklist}
+        # cooperate with other mixins (e.g. LockedMachine) which customize pickling further down the MRO
+        parent = getattr(super(GraphMachine, self), "__getstate__", None)
+        state = parent() if parent is not None else None
+        if not isinstance(state, dict):
+            state = self.__dict__
+        return {k: v for k, v in state.items() if k not in self._pickle_blacklist}
 
     def __setstate__(self, state):
-        self.__dict__.update(state)
+        parent = getattr(super(GraphMachine, self), "__setstate__", None)
+        if parent is not None:
+            parent(state)
+        else:
+            self.__dict__.update(state)
         self.model_graphs = {}  # reinitialize new model_graphs
         for model in self.models:
             try:
